@@ -83,7 +83,7 @@ Definition repo_globals : env :=
   ++ enum_globals py_enums)%list.
 
 (* stratum 0: functions that call no module function *)
-Definition ctx0 : ctx := mkCtx repo_globals [] repo_method.
+Definition ctx0 : ctx := mkCtx repo_globals [] repo_method [] [].
 Definition sem_could_be_unfinished_utf8 : list val -> res val := call_in ctx0 py_could_be_unfinished_utf8.
 Definition sem_decodable : list val -> res val := call_in ctx0 py_decodable.
 Definition sem_key_name : list val -> res val := call_in ctx0 py_key_name.
@@ -93,10 +93,10 @@ Definition funs1 : funs :=
   [ ("could_be_unfinished_utf8", sem_could_be_unfinished_utf8);
     ("decodable", sem_decodable);
     ("_key_name", sem_key_name) ].
-Definition ctx1 : ctx := mkCtx repo_globals funs1 repo_method.
+Definition ctx1 : ctx := mkCtx repo_globals funs1 repo_method [] [].
 Definition sem_could_be_unfinished_char : list val -> res val := call_in ctx1 py_could_be_unfinished_char.
 
 (* stratum 2 *)
 Definition funs2 : funs := ("could_be_unfinished_char", sem_could_be_unfinished_char) :: funs1.
-Definition ctx2 : ctx := mkCtx repo_globals funs2 repo_method.
+Definition ctx2 : ctx := mkCtx repo_globals funs2 repo_method [] [].
 Definition sem_get_key : list val -> res val := call_in ctx2 py_get_key.
